@@ -43,17 +43,16 @@ def app_visible_future_attrs(ctx):
         if f in seen:
             continue
         seen.add(f)
-        for n in walk_local(f.node):
-            if isinstance(n, ast.Return) and n.value is not None:
-                v = n.value
-                if isinstance(v, ast.Attribute):
-                    attrs.setdefault(v.attr, f)
-                elif isinstance(v, ast.Call) and isinstance(v.func, ast.Attribute) and depth[f] < 2:
-                    for c in ctx.repo.classes_defining(v.func.attr):
-                        if c.is_subclass_of(slots.StreamHandler):
-                            g = c.methods[v.func.attr]
-                            depth.setdefault(g, depth[f] + 1)
-                            work.append(g)
+        from ..astutil import returned_exprs
+        for v in returned_exprs(f.node):
+            if isinstance(v, ast.Attribute):
+                attrs.setdefault(v.attr, f)
+            elif isinstance(v, ast.Call) and isinstance(v.func, ast.Attribute) and depth[f] < 2:
+                for c in ctx.repo.classes_defining(v.func.attr):
+                    if c.is_subclass_of(slots.StreamHandler):
+                        g = c.methods[v.func.attr]
+                        depth.setdefault(g, depth[f] + 1)
+                        work.append(g)
     ctx.cache['visible_futures'] = attrs
     return attrs
 
